@@ -31,7 +31,6 @@ const NONCE_LEN_FIELD: usize = 2;
 // n bytes - opaque (AEAD encrypted seed + tag)
 const MIN_PAYLOAD_SIZE: usize = DEK_LEN_FIELD
     + NONCE_LEN_FIELD
-    + DEK_LEN_BYTES
     + NONCE_LEN_BYTES
     + SEED_LENGTH as usize
     + TAG_LEN_BYTES;
